@@ -48,6 +48,21 @@ def runFlattenLines (id : String) (flavor : String) (fixed : Bool) (s0 : St)
   let rec go (s : St) (k : Nat) : List (List SExp) → List String
     | [] => []
     | ev :: r =>
+      match ev with
+      | .atom "rinner" :: j :: n :: j2 :: n2 :: _ =>
+        -- `rinner j n j2 n2`: inner j emits on this thread; WHILE the subscriber is called for it inner j2 emits on another
+        -- thread.  The operator hands items to its downstream with its cell held: the second emission waits — the line is
+        -- that of the two emissions one after the other
+        match parseFlatEv [.atom "inner", j, n], parseFlatEv [.atom "inner", j2, n2] with
+        | some x1, some x2 =>
+          let (s1, o1) := stepG fixed s x1
+          let (s2, o2) := stepG fixed s1 x2
+          if s1.stuck || s2.stuck then
+            [s!"{id}.{k} " ++ (if flavor == "threads" then "RELOCK" else "PANIC")]
+          else
+            s!"{id}.{k} {showOut ((o1 ++ o2).map Out.toNotif)}" :: go s2 (k + 1) r
+        | _, _ => [s!"{id}.{k} BADEV"]
+      | _ =>
       match parseFlatEv ev with
       | some x =>
         let (s', o) := stepG fixed s x
